@@ -184,7 +184,7 @@ package authenticators
 //@   logged vt
 //@   requires len(token.Headers) > 0
 //@   ensures ret1 == nil ==> vtk.n > old(vtk.n) && vtk.arg1[vtk.n - 1] == token && vtk.ret1[vtk.n - 1] == nil && ret0 == vtk.ret0[vtk.n - 1]
-//@   ensures ret1 == nil ==> (vjwk.n > old(vjwk.n) && vjwk.arg1[vjwk.n - 1] == vtk.arg2[vtk.n - 1] && vjwk.ret0[vjwk.n - 1] == nil) || (gk.n == old(gk.n) + 1 && gk.ret1[old(gk.n)] == nil && vtk.arg2[vtk.n - 1] == gk.ret0[old(gk.n)])
+//@   ensures ret1 == nil ==> vjwk.n > old(vjwk.n) && vjwk.arg1[vjwk.n - 1] == vtk.arg2[vtk.n - 1] && vjwk.ret0[vjwk.n - 1] == nil
 
 //@ func (*jwtAuthenticator).verifyTokenWithoutKID
 //@   props C04 C05
